@@ -15,6 +15,7 @@
 #include "jls/threaded_writer.h"
 #include "jls/format.h"
 #include "jls/ec.h"
+#include "jls/log.h"
 #include <math.h>
 #include <fcntl.h>
 #include <sys/stat.h>
@@ -164,10 +165,12 @@ struct prog_s {
     char path[512];
     char dir[400];
     int pathn;
+    char paths[32][512];      /* every file created by this case, in order (op `use <i>` selects one) */
     uint32_t dtype[256];      /* data type per signal as given by the script (for buffers) */
     size_t slack;
     int first;                /* output separator state */
 };
+static void log_to_stdout(const char * msg) { printf("{LOG %s}", msg); }
 static void out_sep(struct prog_s * p) { if (!p->first) putchar(';'); p->first = 0; }
 
 struct cb_s { int n; int stop_after; };
@@ -210,7 +213,9 @@ static void write_file(const char * path, const uint8_t * b, size_t n) {
     FILE * f = fopen(path, "wb"); fwrite(b, 1, n, f); fclose(f);
 }
 static void new_path(struct prog_s * p, const char * tag) {
-    snprintf(p->path, sizeof(p->path), "%s/f%d_%s.jls", p->dir, p->pathn++, tag);
+    snprintf(p->path, sizeof(p->path), "%s/f%d_%s.jls", p->dir, p->pathn, tag);
+    if (p->pathn < 32) strcpy(p->paths[p->pathn], p->path);
+    p->pathn++;
 }
 
 static void dump_log(struct prog_s * p, const char * outpath) {
@@ -257,6 +262,7 @@ static void run_op(struct prog_s * p, char * op) {
     const char * c = tok[0];
     out_sep(p);
     printf("%s", c);
+    if (!strcmp(c, "logon")) { jls_log_register(log_to_stdout); return; }
     if (!strcmp(c, "slack")) { p->slack = (size_t) TOKU(1); return; }
     if (!strcmp(c, "wopen") || !strcmp(c, "topen")) {
         new_path(p, "w");
@@ -350,6 +356,7 @@ static void run_op(struct prog_s * p, char * op) {
         return;
     }
     if (!strcmp(c, "logdump")) { char lp[600]; snprintf(lp, sizeof(lp), "%s", TOK(1)); dump_log(p, lp); printf(" %zu", wl_n_); return; }
+    if (!strcmp(c, "logmark")) { printf(" %zu", wl_n_); return; }
     if (!strcmp(c, "logn")) {   /* number of log entries, and their kinds/lengths */
         printf(" %zu", wl_n_);
         return;
@@ -365,6 +372,11 @@ static void run_op(struct prog_s * p, char * op) {
         new_path(p, "copy");
         int32_t rc = jls_copy(src, p->path, NULL, NULL, NULL, NULL);
         printf(" %d", rc);
+        return;
+    }
+    if (!strcmp(c, "use")) {
+        int i = (int) TOKI(1);
+        if (i >= 0 && i < p->pathn && i < 32) { strcpy(p->path, p->paths[i]); printf(" 0"); } else printf(" -1");
         return;
     }
     if (!strcmp(c, "dup")) {   /* byte copy of the current file; becomes current */
@@ -466,6 +478,22 @@ static void run_op(struct prog_s * p, char * op) {
             }
             if (!p->slack && b[nb] != 0xA5) printf(" OVERRUN");
         } else printf(" %d", rc);
+        free(b);
+        return;
+    }
+    if (!strcmp(c, "rdall")) {   /* whole signal: rc len hash(first len*w bits) */
+        uint16_t sig = (uint16_t) TOKU(1);
+        int64_t n = -1; int32_t rc = jls_rd_fsr_length(p->rd, sig, &n);
+        if (rc) { printf(" %d", rc); return; }
+        struct jls_signal_def_s d; uint32_t dt = JLS_DATATYPE_F32;
+        if (0 == jls_rd_signal(p->rd, sig, &d)) dt = d.data_type;
+        int w = dt_bits(dt);
+        size_t nb = n > 0 ? (size_t) (((uint64_t) n * w + 7) / 8) : 0;
+        uint8_t * b = malloc(nb + 16);
+        memset(b, 0, nb + 16);
+        rc = n > 0 ? jls_rd_fsr(p->rd, sig, 0, b, n) : 0;
+        if (!rc && nb) { int rem = (int) (((uint64_t) n * w) % 8); if (rem) b[nb - 1] &= (uint8_t) ((1u << rem) - 1); }
+        if (rc) printf(" %d %" PRId64, rc, n); else printf(" 0 %" PRId64 " %016" PRIx64, n, fnv64(b, nb));
         free(b);
         return;
     }
